@@ -32,6 +32,7 @@ def run(ctx):
     n = (lambda a, b: a if q else b)
     gens = [
         ("fault_bfs", C(nc=2, ns=1, units=1, maxwrite=1, feat='"sessclose","fault"'), 24, 0, None, 2, {"allconc": not q}),
+        ("fault_accept", C(nc=2, ns=1, units=2, maxwrite=1, feat='"fault","blockaccept","blockread"'), 16, 0, n(300, 4000), 2, {"allconc": True}),
         ("fault_sim", C(nc=2, ns=2, units=2, maxwrite=2, feat='"swrite","close","sessclose","fault","blockread","blockaccept"'),
          50, 1, n(250, 5000), 2, {}),
         ("timer_c", C(nc=2, ns=1, units=1, maxwrite=1, feat='"swrite","close","gates"', timerep="c"), 40, 0, n(250, 4000), 2,
